@@ -1752,6 +1752,14 @@ class TensorDict(TensorDictBase):
         dim = _maybe_correct_neg_dim(dim, batch_size)
         max_size = batch_size[dim]
         if isinstance(split_size, int):
+            if split_size < 0:
+                raise RuntimeError(
+                    f"split expects split_size be non-negative, but got split_size={split_size}"
+                )
+            if split_size == 0 and max_size != 0:
+                raise RuntimeError(
+                    f"split_size can only be 0 if dimension size is 0, but got dimension size of {max_size}"
+                )
             idx0 = 0
             idx1 = min(max_size, split_size)
             split_sizes = [slice(idx0, idx1)]
@@ -1778,8 +1786,13 @@ class TensorDict(TensorDictBase):
             if len(split_size) == 0:
                 raise RuntimeError("Insufficient number of elements in split_size.")
             try:
+                if any(size < 0 for size in split_size):
+                    raise RuntimeError(
+                        f"split expects split_size to have only non-negative entries, but got split_size={split_size}"
+                    )
                 idx0 = 0
-                idx1 = split_size[0]
+                # sizes beyond the end of the dim are truncated, the first one like the following ones
+                idx1 = min(max_size, split_size[0])
                 split_sizes = [slice(idx0, idx1)]
                 batch_sizes.append(
                     torch.Size(
